@@ -246,6 +246,7 @@ fn table() -> Vec<Entry> {
         ("KMeansInit::KMeansPlusPlus", |o, n| drop(plain(o, n, KMeansInit::<f32>::KMeansPlusPlus))),
         ("KMeansInit::KMeansPara", |o, n| drop(plain(o, n, KMeansInit::<f64>::KMeansPara))),
         ("KMeansInit::Precomputed", |o, n| drop(plain(o, n, KMeansInit::<f64>::Precomputed(points())))),
+        ("KMeansInit::Precomputed(column-major)", |o, n| drop(plain(o, n, KMeansInit::<f64>::Precomputed(crate::util::relayout(&points(), 1))))),
         // ---- linear models
         ("Link::Identity", |o, n| link(o, n, Link::Identity)),
         ("Link::Log", |o, n| link(o, n, Link::Log)),
